@@ -86,10 +86,12 @@ def discharge(obls, facts_of, timeout_s=10, procs=None, use_cvc5=True, seed=0):
     if jobs:
         ctx = mp.get_context("fork")
         with ctx.Pool(min(procs, len(jobs))) as pool:
-            res = pool.map(_run_z3, [(o.smt2, int(timeout_s * 1000), seed) for o in jobs], chunksize=1)
+            # vacuity probes (cover / must_fail) get a short budget: only a definite `unsat` matters for them
+            res = pool.map(_run_z3, [(o.smt2, int((timeout_s if o.expect == "unsat" else min(timeout_s, 3)) * 1000), seed)
+                                     for o in jobs], chunksize=1)
         for o, (r, t, model, reason) in zip(jobs, res):
             o.raw, o.time, o.model, o.reason, o.backend = r, t, model, reason, "z3"
-        unk = [o for o in jobs if o.raw == "unknown"]
+        unk = [o for o in jobs if o.raw == "unknown" and o.expect == "unsat"]
         if unk and use_cvc5 and os.path.exists(CVC5):
             with ctx.Pool(min(procs, len(unk))) as pool:
                 res = pool.map(_run_cvc5, [(o.smt2, timeout_s) for o in unk], chunksize=1)
@@ -97,6 +99,18 @@ def discharge(obls, facts_of, timeout_s=10, procs=None, use_cvc5=True, seed=0):
                 o.time += t
                 if r != "unknown":
                     o.raw, o.backend = r, "cvc5"
+        # quantifier instantiation is sensitive to the solver's random choices (and to machine load): an `unknown` is
+        # re-posed under two other seeds before the obligation is called undecided
+        for rs in (7, 13):
+            unk = [o for o in jobs if o.raw == "unknown" and o.expect == "unsat"]
+            if not unk:
+                break
+            with ctx.Pool(min(procs, len(unk))) as pool:
+                res = pool.map(_run_z3, [(o.smt2, int(timeout_s * 1000), rs) for o in unk], chunksize=1)
+            for o, (r, t, model, reason) in zip(unk, res):
+                o.time += t
+                if r in ("sat", "unsat"):
+                    o.raw, o.model, o.reason, o.backend = r, model, reason, f"z3(seed {rs})"
         for o in jobs:
             if o.raw == "error":
                 o.result = "error"
